@@ -32,9 +32,10 @@ type jsgen struct {
 	noReturn                                                              bool            // class static block / field initialiser: no return
 	lex                                                                   map[string]bool // names declared let/const/class in the current function scope
 	simpleParams                                                          bool            // last params() produced a simple parameter list
+	risk                                                                  int             // how many compile-time-rejectable constructs this program may still contain
 }
 
-var gIds = []string{"a", "b", "c", "x", "y", "z", "f", "g", "o", "arr", "u1"}
+var gIds = []string{"a", "b", "c", "x", "y", "z", "f", "g", "o", "arr", "u1", "é", "日本", "\\u0061b"}
 
 func (g *jsgen) n(k int) int             { return g.r.Intn(k) }
 func (g *jsgen) p(pct int) bool          { return g.r.Intn(100) < pct }
@@ -42,7 +43,167 @@ func (g *jsgen) pick(xs []string) string { return xs[g.r.Intn(len(xs))] }
 func (g *jsgen) id() string              { return g.pick(gIds) }
 func (g *jsgen) fresh(p string) string {
 	g.uid++
+	if g.p(15) {
+		// non-ASCII / escaped identifier characters wherever a fresh identifier is used (parameters, rest elements,
+		// labels, class and function names, private names, pattern variables)
+		if strings.HasPrefix(p, "#") {
+			return fmt.Sprintf("#%s%s%d", g.pick([]string{"é", "日本", "\\u0061", "\\u{62}", "𐐀"}), p[1:], g.uid)
+		}
+		return fmt.Sprintf("%s%s%d", g.pick([]string{"é", "日本", "\\u0061", "\\u{62}", "𐐀", "ñ_"}), p, g.uid)
+	}
 	return fmt.Sprintf("%s%d", p, g.uid)
+}
+
+var gEdgeCodePoints = []string{"0", "61", "D7FF", "D800", "DBFF", "DC00", "DFFF", "FFFF", "10000", "10FFFF", "10FFFE", "110000", "FFFFFFFF", "00000041"}
+
+// edgeEscape: a \u escape at the boundaries of the code point range, well-formed or truncated
+func (g *jsgen) edgeEscape() string {
+	if g.risk <= 0 {
+		// only escapes every context accepts
+		cp := g.pick([]string{"0", "61", "D7FF", "FFFF", "10000", "10FFFF", "10FFFE", "00000041", "E000"})
+		switch g.n(4) {
+		case 0, 1:
+			return "\\u{" + cp + "}"
+		case 2:
+			return g.pick([]string{"\\uD83D\\uDE00", "\\u0041", "\\uFFFF", "\\uD800\\uDC00", "\\uDBFF\\uDFFF"})
+		default:
+			return g.pick([]string{"é", "日", "𐐀", "a", "\\x41"})
+		}
+	}
+	g.risk--
+	cp := g.pick(gEdgeCodePoints)
+	switch g.n(9) {
+	case 0, 1, 2, 3:
+		return "\\u{" + cp + "}"
+	case 4:
+		if len(cp) <= 4 {
+			return "\\u" + strings.Repeat("0", 4-len(cp)) + cp
+		}
+		return "\\uD83D\\uDE00"
+	case 5:
+		return g.pick([]string{"\\uD83D\\uDE00", "\\uD83D", "\\uDE00", "\\uDBFF\\uDFFF", "\\uD800\\uDC00"})
+	case 6:
+		return g.pick([]string{"\\uD83D\\uDE0", "\\uD83D\\u", "\\uD83D\\", "\\u{", "\\u{}", "\\u{1", "\\u12", "\\u", "\\x4", "\\u{10FFFF", "\\uD83D\\uDE0g"})
+	case 7:
+		return g.pick([]string{"\\x41", "\\0", "\\1", "\\u2028", "\\\n", "\\cA", "\\k<n>", "\\p{L}", "\\P{Lu}", "\\p{", "\\b", "\\B", "\\d"})
+	default:
+		return g.pick([]string{"é", "日", "𐐀", "\u2028", "a"})
+	}
+}
+
+// regexBody: a regular expression pattern over the constructs the engines treat specially
+func (g *jsgen) regexBody(d int) string {
+	var b strings.Builder
+	k := 1 + g.n(4)
+	for i := 0; i < k; i++ {
+		switch g.n(12) {
+		case 0, 1:
+			b.WriteString(g.pick([]string{"a", "b", ".", "\\d", "\\w+", "x*", "y?", "^", "$", "é", "\\s", "[^]", "[]"}))
+		case 2, 3, 4:
+			b.WriteString(g.edgeEscape())
+		case 5:
+			b.WriteString("[" + g.pick([]string{"a-z", "^a", "\\d-x", "é-ü"}) + g.edgeEscape() + g.pick([]string{"", "-" + g.edgeEscape()}) + "]")
+		case 6:
+			if d > 0 {
+				b.WriteString(g.pick([]string{"(", "(?:", "(?=", "(?!", "(?<=", "(?<!", "(?<n>", "(?<é>"}) + g.regexBody(d-1) + ")")
+			} else {
+				b.WriteString("(a)")
+			}
+		case 7:
+			b.WriteString(g.pick([]string{"a{2}", "a{1,}", "a{1,2}?", "a{,2}", "a{2,1}", "a**", "+", "{", "}", "a{99999999999}"}))
+		case 8:
+			b.WriteString(g.pick([]string{"\\1", "\\2", "\\k<n>", "(?<n>a)\\k<n>", "(a)|b", "|", "a|"}))
+		case 9:
+			b.WriteString(g.pick([]string{"\\/", "\\\\", "[/]", "\\]", "\\-"}))
+		default:
+			b.WriteString(g.pick([]string{"ab", "12", "é+", "(?:)", "\\uD83D\\uDE00+", "[\\uD83D\\uDE00]", "\\uD83D\\uDE00"}))
+		}
+	}
+	if g.p(25) { // make a \u escape (possibly truncated) the very end of the pattern
+		b.WriteString(g.edgeEscape())
+	}
+	return b.String()
+}
+
+func (g *jsgen) regexFlags() string {
+	fl := ""
+	for _, f := range []string{"g", "i", "m", "s", "u", "y", "d"} {
+		if g.p(30) {
+			fl += f
+		}
+	}
+	if g.p(45) && !strings.Contains(fl, "u") {
+		fl += "u"
+	}
+	if g.p(4) {
+		fl += g.pick([]string{"u", "g", "x", "v"})
+	}
+	return fl
+}
+
+// regexExpr: a regular expression (literal, or built at run time from the same pattern text) and a use of it
+func (g *jsgen) regexExpr(d int) string {
+	fl := g.regexFlags()
+	literal := g.risk > 0 && g.p(60)
+	saved := g.risk
+	if !literal {
+		g.risk = 1000 // a pattern built at run time sits in a string literal: every escape, also truncated ones, is allowed
+	}
+	body := g.regexBody(d)
+	if !literal {
+		g.risk = saved
+	}
+	var re string
+	if literal && body != "" && !strings.HasPrefix(body, "*") && !strings.Contains(body, "\n") {
+		g.risk--
+		re = "/" + body + "/" + fl
+	} else if g.p(15) {
+		re = g.pick([]string{"/\\uD83D\\uDE00/u", "/[\\u{10000}-\\u{10FFFF}]+/gu", "/(?<n>é)\\k<n>/u", "/a\\u{61}/u", "/\\uD83D/", "/^.$/su"})
+	} else {
+		q := gQuote(strings.ReplaceAll(body, "\\", "\\"))
+		re = g.pick([]string{"new RegExp(", "RegExp("}) + q + ", \"" + fl + "\")"
+	}
+	subj := g.pick([]string{"\"a\\uD83D\\uDE00b\"", "\"aab\"", "\"\"", "\"é\\u{10FFFE}\"", "arr", "\"\\uD83D\"", "\"x\\uDE00\"", "\"aé\""})
+	switch g.n(8) {
+	case 0:
+		return re
+	case 1:
+		return re + ".test(" + subj + ")"
+	case 2:
+		return re + ".exec(" + subj + ")"
+	case 3:
+		return subj + ".replace(" + re + ", " + g.pick([]string{"\"$1$<n>$&\"", "\"\"", "(m) => m + m", "\"$\""}) + ")"
+	case 4:
+		return subj + ".match(" + re + ")"
+	case 5:
+		return "[..." + subj + ".matchAll(" + re + ")]"
+	case 6:
+		return subj + ".split(" + re + ", 5)"
+	default:
+		return subj + ".search(" + re + ")"
+	}
+}
+
+// edgeLit: string / template / identifier / regexp literals built around boundary escapes
+func (g *jsgen) edgeLit(d int) string {
+	switch g.n(7) {
+	case 0, 1:
+		return "\"" + g.pick([]string{"", "a"}) + g.edgeEscape() + g.pick([]string{"", g.edgeEscape()}) + "\""
+	case 2:
+		return "'" + g.edgeEscape() + "'"
+	case 3:
+		return "`" + g.edgeEscape() + "${" + g.lit() + "}" + g.edgeEscape() + "`"
+	case 4:
+		return "String.raw`" + g.edgeEscape() + "`"
+	case 5:
+		if g.risk > 0 {
+			g.risk--
+			return g.pick([]string{"a\\u{10000}", "\\u{10FFFF}", "\\u{110000}", "\\uD83D\\uDE00", "\\u{0}x", "o.\\u{110000}"})
+		}
+		return g.pick([]string{"\\u{61}", "\\u0061", "é\\u{62}", "o.\\u{61}", "o.é", "({é: 1, \\u{62}: 2}).é", "o[\"\\u{10FFFF}\"]"})
+	default:
+		return g.regexExpr(d)
+	}
 }
 
 var gLits = []string{"0", "1", "2", "-1", "\"\"", "\"a\"", "'str'", "true", "false", "null", "void 0", "1n", "0n", "0.5", "1e3",
@@ -173,8 +334,13 @@ func (g *jsgen) pattern(d int, decl bool) string {
 		return g.target(d - 1)
 	}
 	sub := func() string {
-		if d > 1 && g.p(25) {
-			return g.pattern(d-1, decl)
+		if d > 1 && g.p(30) {
+			nested := g.pattern(d-1, decl)
+			if g.p(50) {
+				// nested pattern with an initialiser: `{p: [a,,b] = [7,8,9]}`
+				nested += " = " + g.pick([]string{"[7, 8, 9]", "{x: 1, y: [2]}", "arr", "o", "\"ab\"", "[[1], [2]]", "[]", "{}"})
+			}
+			return nested
 		}
 		t := leaf()
 		if g.p(30) {
@@ -186,8 +352,11 @@ func (g *jsgen) pattern(d int, decl bool) string {
 		k := g.n(3) + 1
 		var xs []string
 		for i := 0; i < k; i++ {
-			if g.p(15) {
+			if g.p(22) {
 				xs = append(xs, "")
+				if g.p(30) {
+					xs = append(xs, "")
+				}
 			} else {
 				xs = append(xs, sub())
 			}
@@ -425,10 +594,10 @@ func (g *jsgen) classExpr(d int) string {
 		g.restore(cc)
 		b.WriteString("constructor" + g.params(d-1) + " " + body + " ")
 	}
-	k := g.n(4)
+	k := g.n(7)
 	for i := 0; i < k; i++ {
 		st := ""
-		if g.p(30) {
+		if g.p(40) {
 			st = "static "
 		}
 		switch g.n(8) {
@@ -548,7 +717,17 @@ func (g *jsgen) expr(d int) string {
 		}
 		return g.id()
 	}
-	switch g.n(34) {
+	switch g.n(38) {
+	case 34, 35:
+		if g.p(30) {
+			return g.regexExpr(2)
+		}
+		return g.lit()
+	case 36:
+		if g.p(30) {
+			return g.edgeLit(2)
+		}
+		return g.id()
 	case 0, 1:
 		return g.lit()
 	case 2, 3:
@@ -750,7 +929,8 @@ func (g *jsgen) stmt(d int) string {
 		return s
 	case 9:
 		g.loops++
-		s := "for (" + g.pick([]string{"var k1", "let k2", "const k3", g.target(d - 1), "var [k4]", "let {length: k5}"}) + " " +
+		s := "for (" + g.pick([]string{"var k1", "let k2", "const k3", g.target(d - 1), "var [k4]", "let {length: k5}",
+			g.pick([]string{"var ", "let ", "const "}) + g.pattern(d-1, true), g.pattern(d-1, false)}) + " " +
 			g.pick([]string{"in", "of"}) + " " + g.pick([]string{"arr", "o", "\"ab\"", "[1,2]", "[[1],[2]]"}) + ") " + g.block(d)
 		g.loops--
 		return s
@@ -911,6 +1091,9 @@ func GenProgram(r *common.SplitMix64, o GenOpt) string {
 		o.MaxDepth = 2
 	}
 	g.lex = map[string]bool{}
+	if g.p(35) {
+		g.risk = 1 + g.n(2)
+	}
 	wrap := g.n(5)
 	if o.Placement == 1 {
 		g.inFunc = true
@@ -926,7 +1109,7 @@ func GenProgram(r *common.SplitMix64, o GenOpt) string {
 	var body strings.Builder
 	body.WriteString("var __n = 0; ")
 	// prelude: the identifier pool, declared in varying ways
-	for _, id := range []string{"a", "b", "c", "x", "y", "z"} {
+	for _, id := range []string{"a", "b", "c", "x", "y", "z", "é", "日本"} {
 		switch g.n(5) {
 		case 0:
 			body.WriteString("var " + id + " = " + g.lit() + "; ")
@@ -1037,7 +1220,7 @@ var gTokPool = []string{"(", ")", "[", "]", "{", "}", ",", ";", ":", "?", ".", "
 	"++", "--", "!", "function", "class", "extends", "super", "new", "delete", "typeof", "void", "yield", "await", "async", "static", "get", "set",
 	"var", "let", "const", "if", "else", "for", "while", "do", "break", "continue", "return", "throw", "try", "catch", "finally", "switch", "case",
 	"default", "with", "in", "of", "instanceof", "this", "null", "true", "0", "1n", "\"s\"", "`", "${", "#p", "a", "arguments", "eval", "new.target",
-	"/", "/x/", "\\u0061", "0x", "1e", "'", "\"", "*/", "/*", "//", "\n", "enum", "import", "export", "debugger", "label:"}
+	"/", "/x/", "\\u0061", "\"\\u{10FFFF}\"", "`\\u{10FFFF}`", "\\u{110000}", "...é", "é", "/\\uD83D\\uDE0/u", "#é", "0x", "1e", "'", "\"", "*/", "/*", "//", "\n", "enum", "import", "export", "debugger", "label:"}
 
 func gTokenize(src string) []string {
 	var toks []string
@@ -1152,7 +1335,7 @@ func RandomBytes(r *common.SplitMix64, maxLen int) string {
 			b = append(b, al[r.Intn(len(al))])
 		}
 	case 2:
-		pieces := []string{"\"\\ud800\"", "'\\u{110000}'", "\\u{ffffffffff}", "/[/", "/(?<n>a)\\k<n>/u", "`${", "/*", "\"abc", "'\n", "0b", "0o8", "1_000", "1e+", ".5.5", "\xff\xfe", "\xc0\x80",
+		pieces := []string{"\"\\u{10FFFF}\"", "`\\u{10FFFF}`", "[...é] = []", "var [...日本] = []", "([...é]) => 1", "/\\uD83D\\uDE0/u", "/[\\u{10FFFF}-\\u{110000}]/u", "\"\\ud800\"", "'\\u{110000}'", "\\u{ffffffffff}", "/[/", "/(?<n>a)\\k<n>/u", "`${", "/*", "\"abc", "'\n", "0b", "0o8", "1_000", "1e+", ".5.5", "\xff\xfe", "\xc0\x80",
 			"\xed\xa0\x80", "\xef\xbb\xbf", "\x00", "\u2028", "\u00a0", "a\\u0062c", "\\u{61}", "#!", "<!--", "-->", "0n.", "9007199254740993n", "1" + strings.Repeat("0", 400), "0." + strings.Repeat("0", 400) + "1",
 			"var \\u0076ar", "`\\u{`", "`\\xg`", "/\\", "/a/gg", "/a/\\u0067", "async\n()=>1", "let\n[a]=1", "yield", "await 1", "class{#a;#a}", "({a=1})", "for(let of of[])", "x=>{}\n/1/g"}
 		for len(b) < n {
